@@ -1,0 +1,32 @@
+//go:build verif
+
+// Contracts for package print, read by the verification-condition generator in /verif/govc.
+// This file contains comments only; it is compiled only with -tags verif and adds no code.
+
+package print
+
+/*@
+// The print reporter writes through one buffered writer; a failed write is handed back at once and is sticky
+// in the writer, so Flush reports it again (C17). Nothing but the sink state changes.
+func NewPrintReporter returns (pr)
+  props C17 C08
+  modifies ghost(bufSink, bufSticky)
+  ensures @fresh pr != nil && fresh(pr) && pr.output != nil && fresh(pr.output) && pr.dateFormat == config.DateFormat
+  ensures @sink [C17] bufSink == store(old(bufSink), pr.output, payload(config.Output)) && bufSticky == store(old(bufSticky), pr.output, false)
+
+func (PrintReporter).Process returns (err)
+  props C17 C08 C14
+  requires @args ln != nil && pr.output != nil
+  modifies ghost(bufSticky, sinkFailed, sinkPend, prLen, prSink, prArg, prArgs)
+  ensures @sink [C17] BufStep(pr.output)
+  ensures @reports-loss [C17] err == nil ==> bufSticky[pr.output] == old(bufSticky[pr.output])
+  loop 1 { invariant @sink ln == old(ln) && pr == old(pr) && BufStep(pr.output) && bufSticky[pr.output] == old(bufSticky[pr.output]) }
+  loop 2 { invariant @sink ln == old(ln) && pr == old(pr) && BufStep(pr.output) && bufSticky[pr.output] == old(bufSticky[pr.output]) }
+
+func (PrintReporter).Flush returns (err)
+  props C17 C08
+  requires @args pr.output != nil
+  modifies ghost(bufSticky, sinkFailed, sinkPend)
+  ensures @sink [C17] BufStep(pr.output)
+  ensures @reports-loss [C17] (err != nil) == bufSticky[pr.output] && (err == nil ==> sinkPend[bufSink[pr.output]] == 0)
+@*/
